@@ -66,7 +66,9 @@ PROPS = {
                      dict(bag="cancel", depth=18, quick=80, thorough=1500),
                      dict(bag="killrpc", depth=16, quick=80, thorough=1500),
                      dict(bag="pci", depth=18, quick=100, thorough=2000),
-                     dict(bag="ppt", depth=18, quick=100, thorough=2000, mode="ppt")],
+                     dict(bag="ppt", depth=18, quick=100, thorough=2000, mode="ppt"),
+                     # the final reply of a call whose caller momentarily does not read (result-retry path)
+                     dict(bag="retryseq", depth=16, quick=40, thorough=600, mode="stall", scripted=True)],
                 classes=["rpcreply"]),
     "C03": dict(family="core",
                 mc=dict(kinds=MC_RPC_KINDS,
